@@ -6,6 +6,7 @@ import (
 	"errors"
 	"fmt"
 	"math"
+	"reflect"
 	"time"
 
 	vrt "go.uber.org/zap/internal/vrt"
@@ -326,7 +327,7 @@ func vSameVal(a, b interface{}) bool {
 		y, ok := b.(time.Time)
 		return ok && x.Equal(y)
 	}
-	return false
+	return reflect.DeepEqual(a, b)
 }
 
 func vSameCalls(a, b []vCall) bool {
